@@ -130,6 +130,17 @@ def evidence(unit, fn, stmt, R, params, ev, bad):
                 uses_var = any(x['k'] == 'DeclRefExpr' and x.get('d') == var for a in n.get('args', [])[:1] for x in walk(a))
                 if not uses_var:
                     continue
+                # a contribution made only for some elements (under a condition inside the loop) is not a contribution of
+                # the whole component: in a union every final state / rule of the operand has to arrive
+                cond_ = False
+                pp = n.get('_p')
+                while pp is not None and pp is not stmt:
+                    if pp['k'] in ('IfStmt', 'ConditionalOperator', 'SwitchStmt'):
+                        cond_ = True
+                    pp = pp.get('_p')
+                if cond_:
+                    bad.append((n, 'the %s of operand `%s` are copied only for the elements that pass a test inside the loop: the others are missing from the union' % (comp or 'component', params[op])))
+                    continue
                 if m == 'SetStateFinal':
                     if comp == 'final':
                         ev.add((op, 'final'))
